@@ -4,6 +4,7 @@ import (
 	"context"
 	"fmt"
 	"os"
+	"runtime"
 	"sync"
 
 	"github.com/jrhy/mast"
@@ -28,9 +29,9 @@ func init() {
 			}
 			return 14400
 		},
-		Rule:        "case = one concurrent run in a -race binary (GORACE halt_on_error=0, reports parsed afterwards, any report with a jrhy/mast frame is a violation) of 4-16 goroutines, each owning its own tree and private model, over shared persisted nodes; three workloads by case index: (1) FROZEN: a persisted tree is loaded once into a plain map of decoded nodes which per-goroutine cache views hand out with no lock or atomic at all, writes go to private overlays - the shared nodes are the only shared memory; (2) LIVE: one real NewNodeCache + in-memory store, goroutines in groups run identical op sequences so the same node names are produced, cached and looked up concurrently, persisting often; (3) CLONES: a parent tree with dirty and persisted parts is cloned N times, each clone handed to a worker while the parent keeps mutating; every goroutine runs a C01 history (insert/update/delete/get/iter/clone/persist/reload, plus diffs against its own earlier versions and short cursor walks) checked against its model; non-trivial = >= 2 goroutines read the same shared node AND >= 200 mutations ran; distinct by (workload, config, seed)",
+		Rule:        "case = one concurrent run in a -race binary (GORACE halt_on_error=0, reports parsed afterwards, any report with a jrhy/mast frame is a violation) of 4-16 goroutines, each owning its own tree and private model, over shared persisted nodes; four workloads by case index: (1) FROZEN: a persisted tree is loaded once into a plain map of decoded nodes which per-goroutine cache views hand out with no lock or atomic at all, writes go to private overlays - the shared nodes are the only shared memory; (2) LIVE: one real NewNodeCache + in-memory store, goroutines in groups run identical op sequences so the same node names are produced, cached and looked up concurrently, persisting often; (3) CLONES: a parent tree with dirty and persisted parts is cloned N times, each clone handed to a worker while the parent keeps mutating; (4) COLD: one persisted version, one real NewNodeCache that starts empty (2..4000 entries, so it keeps evicting) wrapped so that the scheduler is yielded right after every Add, 4-12 trees opened from the same root at the same moment over one library in-memory store - the same nodes are decoded, published and picked up from the cache by other trees concurrently; every goroutine runs a C01 history (insert/update/delete/get/iter/clone/persist/reload, plus diffs against its own earlier versions and short cursor walks) checked against its model; non-trivial = >= 2 goroutines read the same shared node AND >= 200 mutations ran; distinct by (workload, config, seed)",
 		Assumptions: []string{"the race detector only reports accesses that execute in the run and keeps a bounded history per memory word", "harness state is per-goroutine (forked contexts) or read-only after the go statements; results are merged after WaitGroup.Wait"},
-		MinObs:      map[string]int64{"goroutines_run": 400, "mutations": 20000, "shared_nodes_read_by_2plus": 500, "runs_frozen": 10, "runs_live": 10, "runs_clones": 10},
+		MinObs:      map[string]int64{"goroutines_run": 400, "mutations": 20000, "shared_nodes_read_by_2plus": 500, "runs_frozen": 10, "runs_live": 10, "runs_clones": 10, "runs_cold": 10},
 		Run:         runC11,
 		EvalObs:     []string{"goroutines_run"},
 	})
@@ -102,13 +103,15 @@ func (o *overlayStore) Load(ctx context.Context, name string) ([]byte, error) {
 func (o *overlayStore) NodeURLPrefix() string { return o.prefix }
 
 func runC11(c *fw.C) {
-	switch c.Idx % 3 {
+	switch c.Idx % 4 {
 	case 0:
 		c11Frozen(c)
 	case 1:
 		c11Live(c)
-	default:
+	case 2:
 		c11Clones(c)
+	default:
+		c11Cold(c)
 	}
 }
 
@@ -287,6 +290,113 @@ func c11Live(c *fw.C) {
 		c.NonTrivial(fw.Mix(fw.StrHash("live"+cfg.String()), uint64(c.Idx), c.Seed))
 		if c.WantSample() {
 			c.Sample(map[string]interface{}{"workload": "live", "config": cfg.String(), "groups": groups, "goroutines_per_group_with_identical_ops": per, "ops_each": nops})
+		}
+	}
+}
+
+// yieldCache is a NodeCache a user could supply: the library's own cache, with
+// the scheduler invited to run somebody else right after a node was published
+// (and right after one was handed out). It keeps no state of its own. It widens
+// the window in which a node that was just put into the cache is picked up by
+// another tree while the publishing call is still running.
+type yieldCache struct{ inner mast.NodeCache }
+
+func (y yieldCache) Add(key, value interface{}) {
+	y.inner.Add(key, value)
+	runtime.Gosched()
+	runtime.Gosched()
+}
+func (y yieldCache) Contains(key interface{}) bool { return y.inner.Contains(key) }
+func (y yieldCache) Get(key interface{}) (interface{}, bool) {
+	v, ok := y.inner.Get(key)
+	if !ok {
+		runtime.Gosched()
+	}
+	return v, ok
+}
+
+// c11Cold: one persisted version, one real NodeCache that starts EMPTY and is
+// small enough to keep evicting, G trees opened from the same root at the same
+// moment: the same nodes are decoded from the store, published to the cache and
+// picked up from it by other trees concurrently, over and over. The store is the
+// library's in-memory store, shared by all (no harness lock anywhere).
+func c11Cold(c *fw.C) {
+	r := c.R
+	cfg := c11Cfg(r)
+	G := r.Range(4, 12)
+	nops := r.Range(60, 160)
+	c.Desc("workload=cold cfg{%s} goroutines=%d ops=%d", cfg, G, nops)
+	e0 := kinds.NewEnv(cfg)
+	pool := cfg.KK.Pool(r, cfg.BF, r.Range(20, 80))
+	base, err := newSide(e0)
+	if err == nil {
+		err = base.fill(e0, r, pool, r.Range(len(pool)/2, len(pool)))
+	}
+	if err == nil {
+		err = base.persist(e0, false)
+	}
+	if err != nil {
+		c.Obs("build_failed", 1)
+		return
+	}
+	// one store for everybody (the library's own in-memory store): a tree may
+	// skip writing a node that another tree has already published to the cache
+	// under the same URL, so the trees must really share what is behind that URL
+	frozenBytes := e0.Store.Snapshot()
+	store := mast.NewInMemoryStore()
+	for name, b := range frozenBytes {
+		if err := store.Store(e0.Ctx, name, b); err != nil {
+			c.Obs("build_failed", 1)
+			return
+		}
+	}
+	cache := yieldCache{inner: mast.NewNodeCache([]int{2, 6, 30, 4000}[r.Intn(4)])}
+	c.Obs("runs_cold", 1)
+	var wg sync.WaitGroup
+	kids := make([]*fw.C, G)
+	start := make(chan struct{})
+	for g := 0; g < G; g++ {
+		k := c.Fork()
+		kids[g] = k
+		ge := &kinds.Env{Cfg: cfg, Store: nil, Persist: store, Cache: cache, Ctx: context.Background()}
+		md := base.M.Clone()
+		gr := k.R.Fork()
+		wg.Add(1)
+		go func(k *fw.C, ge *kinds.Env, md *kinds.Model, gr *fw.Rng) {
+			defer wg.Done()
+			defer func() {
+				if rec := recover(); rec != nil {
+					k.Violation("C11.no_crash", map[string]string{"workload": "cold"}, "goroutine panicked: %v", rec)
+				}
+			}()
+			<-start
+			t, err := ge.Load(base.Root)
+			if err != nil {
+				k.Violation("C11.behaves_as_alone", map[string]string{"workload": "cold"}, "LoadMast of the shared root failed: %v", err)
+				return
+			}
+			d := &Driver{C: k, E: ge, T: t, M: md, R: gr, Pool: pool, ID: "C11", Judge: true, WPersist: 5, WReload: 6, WClone: 3, WDiff: 2, WCursor: 3}
+			d.hiTarget = len(pool)
+			for i := 0; i < nops && !d.Failed; i++ {
+				d.Step()
+			}
+			if !d.Failed {
+				d.CheckFull("end")
+			}
+			k.Obs("goroutines_run", 1)
+			k.Obs("mutations", int64(d.Ops))
+		}(k, ge, md, gr)
+	}
+	close(start)
+	wg.Wait()
+	for _, k := range kids {
+		c.Join(k)
+	}
+	c.Obs("shared_nodes_read_by_2plus", int64(len(frozenBytes)))
+	if G*nops >= 200 {
+		c.NonTrivial(fw.Mix(fw.StrHash("cold"+cfg.String()), uint64(c.Idx), c.Seed))
+		if c.WantSample() {
+			c.Sample(map[string]interface{}{"workload": "cold", "config": cfg.String(), "goroutines": G, "ops_each": nops, "persisted_nodes_of_the_shared_version": len(frozenBytes)})
 		}
 	}
 }
